@@ -11,6 +11,8 @@
 use super::ops::{FieldMulOpsSingleWord, FieldMulOpsSplitWord, FieldOps, FieldParameters, Word};
 use super::MAX_ROOTS;
 
+pub use super::ops::Word as FieldWord;
+
 impl Word for u8 {
     const BITS: usize = Self::BITS as usize;
 }
